@@ -32,18 +32,26 @@ Observation(v) ==
 
 Ev(act, op, arg, idx, post) == [act |-> act, op |-> op, arg |-> arg, idx |-> idx, obs |-> Observation(post)]
 
-Construct(p, v) == /\ p = "splat" => \A i \in 1..n : v[i] = v[1]
-                   /\ m' = v
+\* the effect of each action on the mask register alone (also the actions of the trace specification Trace_C15.tla)
+MaskCtor(p, v) == /\ p \in Ctors /\ Len(v) = n /\ (p = "splat" => \A i \in 1..n : v[i] = v[1])
+                  /\ m' = v
+MaskNot == m' = MNot(m)
+MaskBin(op, b) == /\ op \in BinOps /\ Len(b) = n
+                  /\ m' = Apply2(op, m, b)
+MaskSet(i, val) == /\ i \in 1..n
+                   /\ m' = [m EXCEPT ![i] = val]
+
+Construct(p, v) == /\ MaskCtor(p, v)
                    /\ hist' = Append(hist, Ev("ctor", p, v, 0, v))
                    /\ UNCHANGED <<n, m0>>
-Not == /\ m' = MNot(m)
+Not == /\ MaskNot
        /\ hist' = Append(hist, Ev("not", "not", m, 0, MNot(m)))
        /\ UNCHANGED <<n, m0>>
-Bin(op, b) == /\ m' = Apply2(op, m, b)
+Bin(op, b) == /\ MaskBin(op, b)
               /\ hist' = Append(hist, Ev("bin", op, b, 0, Apply2(op, m, b)))
               /\ UNCHANGED <<n, m0>>
 Set(i, val) == LET v == [m EXCEPT ![i] = val] IN
-               /\ m' = v
+               /\ MaskSet(i, val)
                /\ hist' = Append(hist, Ev("set", "set", <<val>>, i - 1, v))
                /\ UNCHANGED <<n, m0>>
 \* invalid index: test / set must panic and leave the mask unchanged
